@@ -146,11 +146,15 @@ def nested_runtime_call(k):
 
     def outer(x):
         return use(x, load_out())
-    outer_dag = tawazi.dag(named(outer, "sc_outer%d" % k), max_concurrency=2)
-    st = in_thread(lambda: (outer_dag(1), outer_dag(2)), 10)
-    if st != ("ok", (14, 15)):
-        return ["a DAG whose node calls another DAG at run time (both with a setup node not run yet): %r instead of (14, 15)" % (st,)]
-    return []
+    msgs = []
+    for mc in (2, 1):
+        # (with max_concurrency=1 the outer call's only worker is busy running the node that calls the inner DAG:
+        #  the inner call must bring its own workers)
+        outer_dag = tawazi.dag(named(outer, "sc_outer%d_%d" % (k, mc)), max_concurrency=mc)
+        st = in_thread(lambda: (outer_dag(1), outer_dag(2)), 10)
+        if st != ("ok", (14, 15)):
+            msgs.append("a DAG (max_concurrency=%d) whose node calls another DAG at run time (both with a setup node not run yet): %r instead of (14, 15)" % (mc, st))
+    return msgs
 
 
 def first_concurrent_awaits(k):
